@@ -57,11 +57,25 @@ theorem cqGates_ok : cqGates.all cqOK = true := by decide
 theorem paramOf_some (argNames : List String) (params : List (Param F)) (f : String) (hf : argNames.contains f = true)
     (hl : argNames.length ≤ params.length) : ∃ p, paramOf argNames params f = some p := by
   unfold paramOf
-  cases hi : argNames.idxOf? f with
-  | none => exact absurd (by simpa using hf) (List.idxOf?_eq_none_iff.mp hi)
-  | some i =>
-    obtain ⟨h, _⟩ := List.idxOf?_eq_some_iff.mp hi
-    exact ⟨params[i]'(by omega), by simp [List.getElem?_eq_getElem (show i < params.length by omega)]⟩
+  have hmem : f ∈ argNames := by simpa using hf
+  suffices h : ∃ ap, (argNames.zip params).find? (fun ap => ap.1 == f) = some ap by
+    obtain ⟨ap, hap⟩ := h
+    exact ⟨ap.2, by rw [hap]; rfl⟩
+  clear hf
+  induction argNames generalizing params with
+  | nil => cases hmem
+  | cons a rest ih =>
+    cases params with
+    | nil => simp at hl
+    | cons p ps =>
+      simp only [List.zip_cons_cons, List.find?_cons]
+      by_cases hfa : a = f
+      · exact ⟨(a, p), by simp [hfa]⟩
+      · have hne : (a == f) = false := by simpa using hfa
+        simp only [hne]
+        rcases List.mem_cons.mp hmem with h | h
+        · exact absurd h.symm hfa
+        · exact ih ps (by simpa using hl) h
 
 theorem names_get (names : List Text) (bits : List Nat) (hb : ∀ b ∈ bits, b < names.length) :
     mapRes (fun b => match names[b]? with | some nm => Res.ok nm | none => Res.panic) bits ≠ .panic := by
